@@ -18,6 +18,7 @@ import Stef.Driver.Alloc
 import Stef.Driver.Schema
 import Stef.Driver.Sizes
 import Stef.Driver.Otlp
+import Stef.Driver.ReaderIO
 
 open Stef.Driver
 
@@ -37,9 +38,11 @@ def mkHandlers : IO (List (List String × Handler)) := do
   let schema ← mkHandler ({} : Schema.St) Schema.step
   let sizes ← mkHandler () SizesD.step
   let otlp ← mkHandler ({} : Otlp.St) Otlp.step
+  let rio ← mkHandler ({} : ReaderIOD.St) ReaderIOD.step
   pure [
     (["idl", "ws"], schema),
     (["rs"], sizes),
+    (["rio"], rio),
     (["otlp"], otlp),
     (["al"], alloc),
     (["rv", "ls"], recv),
